@@ -218,6 +218,15 @@ impl IncrementalEngine {
                         EngineCommand::InsertDelta { relation, updates } => {
                             if let Some(session) = input_sessions.get_mut(&relation) {
                                 for (data, time, diff) in updates {
+                                    // Logical times are drawn before a write takes the KG
+                                    // lock, so with concurrent writers a write can arrive
+                                    // after a consistent read has advanced the input past
+                                    // its time. update_at() asserts time >= the session's
+                                    // time: such a late write would panic this worker
+                                    // thread and disable the engine for good. Record it
+                                    // at the session's current time instead (reads
+                                    // accumulate over all times, so the result is the same).
+                                    let time = time.max(*session.time());
                                     session.update_at(data, time, diff);
                                 }
                             }
@@ -460,7 +469,9 @@ impl IncrementalEngine {
     /// Read with consistency: advance time past all writes, wait, then read.
     pub fn read_relation_consistent(&self, relation: &str) -> Result<Vec<Tuple>, String> {
         let max_time = self.max_write_time.load(Ordering::SeqCst);
-        let target = max_time + 1;
+        // Also move past the time the inputs were last advanced to: a write that arrived
+        // late (see InsertDelta) was recorded at that time, not at its own.
+        let target = max_time.max(self.current_time.load(Ordering::SeqCst)) + 1;
         self.advance_time(target)?;
         self.wait_until_caught_up(target)?;
         self.read_relation(relation)
